@@ -196,10 +196,12 @@ def _work(item):
     n += 1
     # CONF.capture_source makes Test() rebuild the node tree (load_code_info): every 3rd template also runs that way
     settings = {'capture_source': True} if (i % 3 == 0 or label.startswith('no-main')) and i % 2 == 0 else {}
-    obs = progs.run_spec(spec, settings, test_start=(lambda: 'dut') if settings else None)
+    obs = progs.run_spec(spec, settings)
     if settings:
       label += '+capture_source'
     bad = check_groups(spec, obs)
+    if str(obs.get('ret')).startswith('EXC:'):
+      bad.append(('execute-raised', 'execute() raised %s: nothing of the program ran' % obs['ret']))
     outcomes.add((label, obs.get('outcome'), tuple(c[0] for c in obs['calls'] if c[0] != 'plug_init')))
     if sample is None and i > 100:
       sample = {'template': label, 'program': sig(spec), 'calls': obs['calls'], 'outcome': obs.get('outcome')}
